@@ -123,7 +123,8 @@ class CHKFileVerifierURI(_BaseURI):
 
     BASE_STRING=b'URI:CHK-Verifier:'
     STRING_RE=re.compile(b'^URI:CHK-Verifier:'+BASE32STR_128bits+b':'+
-                         BASE32STR_256bits+b':'+NUMBER+b':'+NUMBER+b':'+NUMBER)
+                         BASE32STR_256bits+b':'+NUMBER+b':'+NUMBER+b':'+NUMBER+
+                         b'$')
 
     def __init__(self, storage_index, uri_extension_hash,
                  needed_shares, total_shares, size):
